@@ -75,6 +75,16 @@ fn case(input: &str, via: Via, tracking: bool, rep: &mut Report) -> bool {
     if &*s != want || format!("{}", s) != want || !format!("{:?}", s).contains(&format!("{:?}", want)) {
         bad!("C14:content", "Deref/Display/Debug disagree with content");
     }
+    // Display honours the formatter exactly like the text itself (width, precision in characters, alignment)
+    for prec in [0usize, 1, 2, 3, 5, 40] {
+        let r = std::panic::catch_unwind(std::panic::AssertUnwindSafe(|| (format!("{:.*}", prec, s), format!("{:>9.*}", prec, s), format!("{:<7}", s))));
+        let w = (format!("{:.*}", prec, want), format!("{:>9.*}", prec, want), format!("{:<7}", want));
+        match r {
+            Ok(g) if g == w => {}
+            Ok(g) => bad!("C14:display-format", format!("formatting {:?} with precision {}: {:?}, the text itself gives {:?}", want, prec, g, w)),
+            Err(_) => bad!("C14:display-format", format!("formatting {:?} with precision {} panicked", want, prec)),
+        }
+    }
     // terminator: exactly at len, and no NUL before it
     let term = unsafe { *p.add(want.len()) };
     if term != 0 {
@@ -145,6 +155,9 @@ fn cstr_case(input: &str, rep: &mut Report) {
     let r2 = r; // Copy
     if r.as_ref() != want || format!("{}", r2) != want || !format!("{:?}", r).contains(&format!("{:?}", want)) {
         rep.violation("C14:reprcstr-content", &format!("ReprCStr from {:?} reads {:?}", want, r.as_ref()), "");
+    }
+    for prec in [0usize, 1, 3, 40] {
+        if format!("{:.*}|{:>8}", prec, r, r) != format!("{:.*}|{:>8}", prec, want, want) { rep.violation("C14:display-format", &format!("ReprCStr {:?} formatted with precision {}", want, prec), ""); }
     }
     let c2 = CString::new(want).unwrap();
     let r3 = ReprCStr::from(c2.as_c_str());
